@@ -180,6 +180,9 @@ def run_corpus(ck, stream, n, per_bin=20, allow_regex=True, forms=None, default_
         cases = gen_position_cases(rng, n, positions, allow_regex=allow_regex, forms=forms)
     else:
         cases = gen_cases(rng, n, stream, allow_regex=allow_regex, forms=forms)
+    import hashlib
+    digest = hashlib.sha256("\n".join(c.decls_text + "|" + c.type_text + "|" + c.value_text + "|" + c.text + "|" + getattr(c, "setup", "") + getattr(c, "post", "") for c in cases).encode()).hexdigest()[:16]
+    cpath = os.path.join(cdir, "%s-%s-%s.json" % (repo_hash(), stream, digest))   # impl results only; the spec side is recomputed
     expected_from_lean(ck, cases)
     if use_cache and os.path.exists(cpath):
         got = json.load(open(cpath))
